@@ -86,7 +86,10 @@ func (sh *SearchHistory) Load() error {
 		loaded.Entries = make([]SearchEntry, 0)
 	}
 	sh.Entries = loaded.Entries
-	sh.MaxSize = loaded.MaxSize
+	if loaded.MaxSize > 0 {
+		// a non-positive max_size in the file would make AddEntry panic or drop everything
+		sh.MaxSize = loaded.MaxSize
+	}
 
 	return nil
 }
